@@ -132,7 +132,7 @@ structure DocA where
   people : List PPerson
   fams : List FamA
   otherEvents : List PlEv   -- events with a place that belong to no individual (family events, …)
-  nSources : Nat
+  sourcePtrs : List Str     -- pointers of the SOUR records, document order
 deriving Repr, Inhabited
 
 structure Opts where
@@ -204,12 +204,16 @@ structure PlaceA where
   events : List (Option PPerson × PlEv)
 deriving Inhabited
 
+/-- the file key of a place: `Publisher.Places()` as the naming model of C19 has it — the sanitized
+    pretty name, kept off the fixed page names and the source pages -/
+def placeKeyOf (d : DocA) (e : PlEv) : Str := Publish.placeKey (Publish.reservedKeys d.sourcePtrs) e.pretty
+
 /-- `Publisher.Places`: one entry per key (sorted by key), the events of a place sorted -/
 def places (fl : Flags) (d : DocA) (v : Vis) : List PlaceA :=
   let evs := placeEvents fl d v
-  let keys := sortBy id ((evs.map (fun e => e.2.key)).eraseDups)
+  let keys := sortBy id ((evs.map (fun e => placeKeyOf d e.2)).eraseDups)
   keys.map fun k =>
-    let here := evs.filter (fun e => e.2.key == k)
+    let here := evs.filter (fun e => placeKeyOf d e.2 == k)
     let mine := sortBy (fun (e : Option PPerson × PlEv) => e.2.sortKey) here
     match here with
     | e :: _ => ⟨k, e.2.pretty, e.2.country, mine⟩   -- the first place in document order names the page
@@ -229,7 +233,7 @@ def headerAtoms (fl : Flags) (d : DocA) (v : Vis) (o : Opts) (nPlaces : Nat) (ex
   (if o.pla then [.H (bs "places.html"), lit "Places", .T (natStr nPlaces)] else []) ++
   (if o.fam then [.H (bs "families.html"), lit "Families", .T (natStr d.fams.length)] else []) ++
   (if o.sur then [.H (bs "surnames.html"), lit "Surnames", .T (natStr (surnames fl d v).length)] else []) ++
-  (if o.sou then [.H (bs "sources.html"), lit "Sources", .T (natStr d.nSources)] else []) ++
+  (if o.sou then [.H (bs "sources.html"), lit "Sources", .T (natStr d.sourcePtrs.length)] else []) ++
   (if o.sta then [.H (bs "statistics.html"), lit "Statistics"] else []) ++
   (if extra.isEmpty then [] else [.H hashHref, .T extra])
 
@@ -357,26 +361,28 @@ def individualPage (fl : Flags) (d : DocA) (v : Vis) (o : Opts) (nPlaces : Nat) 
     [lit "Name & Sex"] ++ decodeAtoms p.pp.nameCard ++ [lit "Additional Names"] ++ decodeAtoms p.pp.altCard ++
     eventsAtoms d v p ++ partnersAtoms d v p
 
-/-! ## page names (`GetIndividuals` / `getUniqueKey`, from the naming model of C19) -/
+/-! ## page names: the key hand-out of the naming model of C19 (`Publish.individualKeysV`) -/
 
-/-- hands the keys, in order, to the people that get one -/
-def assignKeys (skip : PPerson → Bool) : List Str → List PPerson → List PPerson
-  | _, [] => []
-  | ks, p :: ps =>
-    if skip p then p :: assignKeys skip ks ps
-    else match ks with
-      | k :: ks' => { p with priv := { p.priv with page := k ++ Publish.html } } :: assignKeys skip ks' ps
-      | [] => p :: assignKeys skip [] ps
+/-- writes the keys into the people (`none`: the person gets no page and keeps what it had) -/
+def setPages : List (Option Str) → List PPerson → List PPerson
+  | some k :: ks, p :: ps => { p with priv := { p.priv with page := k ++ Publish.html } } :: setPages ks ps
+  | none :: ks, p :: ps => p :: setPages ks ps
+  | [], ps => ps
+  | _ :: _, [] => []
 
-/-- the people that are given a page name: everybody, or (regenerated fact) only those who get a page -/
-def keyed (fl : Flags) (v : Vis) (p : PPerson) : Bool := !(fl.keysSkipHidden && hiddenP p v)
+/-- the keys `getUniqueKey` must avoid for individuals: the place keys the publisher holds and the
+    reserved keys (fixed pages, source pages) -/
+def avoidKeys (fl : Flags) (d : DocA) (v : Vis) (o : Opts) : List Str :=
+  (if o.pla then (places fl d v).map (·.key) else []) ++ Publish.reservedKeys d.sourcePtrs
 
-/-- the document with the page name of every person computed: `getUniqueKey` over the written names
-    in document order, avoiding the place keys the publisher holds -/
+/-- the page key of every person, `none` for the hidden ones: `Publish.individualKeysV` over the
+    written names in document order -/
+def pageKeys (fl : Flags) (d : DocA) (v : Vis) (o : Opts) : List (Option Str) :=
+  Publish.individualKeysV (d.people.map (fun p => p.pp.title)) (d.people.map (fun p => hiddenP p v)) (avoidKeys fl d v o)
+
+/-- the document with the page name of every person computed -/
 def rekey (fl : Flags) (d : DocA) (v : Vis) (o : Opts) : DocA :=
-  let placeKeys := if o.pla then (places fl d v).map (·.key) else []
-  let keys := Publish.individualKeys ((d.people.filter (keyed fl v)).map (fun p => p.pp.title)) placeKeys
-  { d with people := assignKeys (fun p => !keyed fl v p) keys d.people }
+  { d with people := setPages (pageKeys fl d v o) d.people }
 
 /-! ## the site: every modelled file with its skeleton, in the order of `sendFiles` -/
 
